@@ -241,6 +241,34 @@ func runProps(props []string, tier, repo, verif string, seed int, writeEv bool, 
 		} else if writeEv {
 			_ = os.Remove(violPath)
 		}
+		var sweep []sweepResult
+		if tier == "thorough" && only == "" {
+			baseFailed := map[string]bool{}
+			for _, o := range obs {
+				if !o.OK {
+					baseFailed[o.Rule+"|"+o.Construct] = true
+				}
+			}
+			sweep = runSweep(prop, repo, verif, rules, baseFailed)
+			nRep, nSeed, nSil, nPres := 0, 0, 0, 0
+			for _, sr := range sweep {
+				if sr.Kind == "seeded" {
+					nSeed++
+					if sr.Outcome == "reported" {
+						nRep++
+					}
+				} else {
+					nPres++
+					if sr.Outcome == "silent" {
+						nSil++
+					}
+				}
+				if sr.Outcome != "reported" && sr.Outcome != "silent" {
+					fmt.Printf("SENSITIVITY %s %s: %s\n", sr.Kind, sr.Variant, sr.Outcome)
+				}
+			}
+			fmt.Printf("%s: sensitivity sweep: %d/%d seeded defects reported, %d/%d behaviour-preserving variants silent\n", prop, nRep, nSeed, nSil, nPres)
+		}
 		if writeEv {
 			samples := []any{}
 			perRule := map[string]int{}
@@ -282,6 +310,10 @@ func runProps(props []string, tier, repo, verif string, seed int, writeEv bool, 
 				},
 				WallS:      time.Since(t0).Seconds() + time.Since(start).Seconds()/float64(len(props)),
 				Violations: nViol,
+			}
+			if sweep != nil {
+				ev.Coverage["sensitivity_sweep"] = sweep
+				ev.Coverage["sensitivity_note"] = "variants are analysed in scratch copies, never executed; the sweep is about the checker's own discrimination and does not change the exit status"
 			}
 			if err := writeJSON(filepath.Join(verif, "evidence", prop+".json"), ev); err != nil {
 				fmt.Printf("ERROR writing evidence: %v\n", err)
